@@ -2,7 +2,7 @@
 # usage: tools/ingest_seeded.sh <worktree> <A|B> <id> <property> <summary> <needs> [cargo test extra args]
 wt=$1; L=$2; id=$3; prop=$4; summary=$5; needs=$6; shift 6; extra="$@"
 cd /verif
-out=$(./tools/confirm_seeded.sh $wt/mutant_$L.patch $wt/tests/demo_$L.rs $extra 2>&1)
+out=$(./tools/confirm_seeded.sh $wt/mutant_$L.patch $wt/tests/demo_$L.rs $extra 2>&1 | sed -n '/^CONFIRMED\|^REJECT/,$p')
 echo "$id: $out" | head -3
 case "$out" in CONFIRMED*) ;; *) exit 1;; esac
 mkdir -p seeded/$id
